@@ -41,7 +41,7 @@ def handleAbs (st : AbsState) : List String → Option (AbsState × String)
     pure (.c06 sys [initMC sys], "ok")
   | ["abs.reset", "Mk", role, cib, sf, pf] => do
     let r ← role? role
-    let sys := Model.AbsMk.sys (tableOf r) ⟨← bool? cib, ← bool? sf, ← bool? pf⟩
+    let sys := Model.AbsMk.sys (tableOf r) ⟨r == .SwapInSender, ← bool? cib, ← bool? sf, ← bool? pf⟩
     pure (.mk sys [initMC sys], "ok")
   | ["abs.persist", s, fl] =>
     match st with
